@@ -52,7 +52,7 @@ def _expand(payload, sub):
     for j in range(payload['nsrc']):
         k = rng.randrange(1, 5)
         cols = sorted(rng.sample(COLS, k), key=lambda c: c[0])
-        srcs.append({'cols': [list(c) for c in cols], 'null_col': rng.random() < 0.3, 'kind': rng.choice(['iterable', 'iterable', 'load_tuple'])})
+        srcs.append({'cols': [list(c) for c in cols], 'null_col': rng.random() < 0.3, 'kind': rng.choice(['iterable', 'iterable', 'load_tuple', 'package'])})
     bases, b = [], 0
     for s in srcs:
         bases.append(b)
@@ -62,6 +62,9 @@ def _expand(payload, sub):
         t['name'] = 'res_%d' % (j + 1)
     stats = {}
     sc = PL.gen_pipeline(rng, tables, payload['nsteps'], exclude=[k for k in ST.GENS if k not in STREAM_KINDS], stats=stats)
+    for sp in sc['steps']:
+        if sp['step'] in ('dump_to_path', 'dump_to_zip') and rng.random() < 0.25:
+            sp['format'] = 'excel'          # the workbook is only saved at the end of a resource: the rows must stream through nevertheless
     return {'sources': srcs, 'steps': sc['steps'], 'N': payload['N'], 'sample_size': payload['sample_size'], 'gen_stats': stats,
             'head': payload.get('head'), 'bad_row': payload.get('bad_row'), 'rerun': payload.get('rerun')}
 
@@ -93,9 +96,84 @@ def _run(payload, sub):
 
     links = []
     env = {'calls': {}}
+    track = {}
+
+    def refresh():
+        # sources that are files: rows pulled = data lines that end before the furthest position read so far
+        import bisect
+        for j, tr in track.items():
+            pulled[j] = bisect.bisect_right(tr['offsets'], tr['maxpos'])
+    if any(spec['kind'] == 'package' for spec in sc['sources']):
+        import io
+        import types
+        import tabulator.loaders.local as tll
+        real_io = io
+
+        class CountingRaw(io.FileIO):
+            tr = None
+
+            def readinto(self, b):
+                n = super().readinto(b)
+                self.tr['maxpos'] = max(self.tr['maxpos'], self.tell())
+                return n
+
+            def read(self, size=-1):
+                data = super().read(size)
+                self.tr['maxpos'] = max(self.tr['maxpos'], self.tell())
+                return data
+
+            def readall(self):
+                data = super().readall()
+                self.tr['maxpos'] = max(self.tr['maxpos'], self.tell())
+                return data
+
+        def counting_open(source, mode='r', *a, **kw):
+            key = os.path.realpath(source)
+            for tr in track.values():
+                if tr['path'] == key and mode == 'rb':
+                    raw = CountingRaw(source, 'r')
+                    raw.tr = tr
+                    tr['opens'] += 1
+                    return real_io.BufferedReader(raw)
+            return real_io.open(source, mode, *a, **kw)
+        ns = types.SimpleNamespace(**{k: getattr(io, k) for k in dir(io) if not k.startswith('__')})
+        ns.open = counting_open
+        tll.io = ns
     for j, spec in enumerate(sc['sources']):
         if spec['kind'] == 'iterable':
             links.append(gen(j, spec))
+        elif spec['kind'] == 'package':
+            # a data package on disk: N data lines in a CSV file, read through tabulator's local loader
+            d = 'src%d' % j
+            os.makedirs(d, exist_ok=True)
+            cols = [tuple(c) for c in spec['cols']]
+            names = ['_id'] + [c for c, t in cols] + (['z9'] if spec.get('null_col') else [])
+            offsets = []
+            pos = 0
+            with open(os.path.join(d, 'data.csv'), 'wb') as f:
+                hdr = (','.join(names) + '\r\n').encode()
+                f.write(hdr)
+                pos += len(hdr)
+                chunk = []
+                for i in range(N):
+                    row = row_of(cols, spec.get('null_col'), j * N, i)
+                    if bad_row is not None and j == 0 and i == bad_row:
+                        row['_id'] = 'not-an-integer'
+                    line = (','.join('' if row[k] is None else str(row[k]) for k in names) + '\r\n').encode()
+                    pos += len(line)
+                    offsets.append(pos)
+                    chunk.append(line)
+                    if len(chunk) >= 4096:
+                        f.write(b''.join(chunk))
+                        chunk = []
+                f.write(b''.join(chunk))
+            desc = {'name': 'pkg%d' % j, 'resources': [{'name': 'res_%d' % (j + 1), 'path': 'data.csv', 'format': 'csv', 'profile': 'tabular-data-resource',
+                                                       'schema': {'fields': [{'name': '_id', 'type': 'integer'}] + [{'name': c, 'type': t} for c, t in spec['cols']] +
+                                                                  ([{'name': 'z9', 'type': 'any'}] if spec.get('null_col') else [])}}]}
+            with open(os.path.join(d, 'datapackage.json'), 'w') as f:
+                json.dump(desc, f)
+            track[j] = {'offsets': offsets, 'maxpos': 0, 'path': os.path.realpath(os.path.join(d, 'data.csv')), 'opens': 0}
+            links.append(DF.load(os.path.join(d, 'datapackage.json')))
         else:
             desc = {'resources': [{'name': 'res_%d' % (j + 1), 'path': 'res_%d.csv' % (j + 1), 'profile': 'tabular-data-resource',
                                    'schema': {'fields': [{'name': '_id', 'type': 'integer'}] + [{'name': c, 'type': t} for c, t in spec['cols']] +
@@ -108,6 +186,8 @@ def _run(payload, sub):
         for row in rows:
             rid = row.get('_id')
             if rid is not None:
+                if track:
+                    refresh()
                 j = rid // N
                 consumed = rid + 1            # all rows of sources < j, plus (rid - j*N + 1) rows of source j
                 tot = 0
@@ -141,6 +221,7 @@ def _run(payload, sub):
                 if k >= head:
                     break
                 yield row
+            refresh()
             state['stopped_at'] = sum(pulled)
         links.append(head_step)
     links.append(sink)
@@ -160,6 +241,7 @@ def _run(payload, sub):
             raise
         failed = type(getattr(e, 'cause', e)).__name__
     state['failed'] = failed
+    refresh()
     state['pulled_end'] = sum(pulled)
     sub.count('rows_pulled', sum(pulled))
     sub.count('rows_delivered', state['delivered'])
@@ -172,7 +254,7 @@ class C06(Prop):
     LEVEL = 'exploration'
     TECHNIQUE = 'deterministic simulation at the source/sink seam: counting sources + recording sink, invariant over the pull/deliver event history, SAMPLE_SIZE knob'
     SIMTIME_UNIT = 'rows pulled from the sources / rows delivered at the sink'
-    RULE = ('one evaluation = 1-3 counting sources of N rows each (generators through schema inference, or load((descriptor, iterators)) without inference; optional always-null column), '
+    RULE = ('one evaluation = 1-3 counting sources of N rows each (generators through schema inference, load((descriptor, iterators)) without inference, or a data package on disk whose CSV file is read through a position-recording raw file; optional always-null column), '
             'a seeded pipeline of 1-8 non-buffering steps (field edits, set_type/validate, filter_rows, unpivot, concatenate, printer, file dumpers, stream, first-run checkpoint, user '
             'row/rows functions, metadata steps), the inference sample size drawn from {1, 5, 100, 200}; N = 20480 (quick) or 20480 / 100000 (thorough). At every delivered row '
             'L = pulled - consumed is recorded. Non-trivial = at least N/2 rows were delivered; distinct = distinct (step kinds, source kinds, sample size).')
@@ -180,7 +262,7 @@ class C06(Prop):
                    'look-ahead is only defined at deliveries: a pipeline whose filter drops every row cannot refute the property']
     REAL_VS_STUB = {'real': ['all dataflows code of the pipeline, tabulator/tableschema iteration'], 'stub': ['counting generator sources', 'recording rows-function sink']}
     PROBES = ['unpivot-in-pipeline', 'concatenate-in-pipeline', 'dumper-in-pipeline', 'checkpoint-in-pipeline', 'filter-in-pipeline', 'null-column-source', 'load-tuple-source',
-              'multi-source', 'sample-size-knob', 'N=100000', 'consumer-stops-early', 'run-fails-mid-stream', 'second-run-into-the-same-directory']
+              'multi-source', 'sample-size-knob', 'N=100000', 'consumer-stops-early', 'run-fails-mid-stream', 'second-run-into-the-same-directory', 'data-package-on-disk-source', 'excel-dumper-in-pipeline']
     TIERS = {'quick': dict(runs=400, wall=110, run_wall=200),
              'thorough': dict(runs=6000, wall=1700, run_wall=900)}
     SHRINK_FROZEN = ('cols', 'gen_stats')
@@ -219,6 +301,10 @@ class C06(Prop):
             ctx.probe('null-column-source')
         if any(s['kind'] == 'load_tuple' for s in sc['sources']):
             ctx.probe('load-tuple-source')
+        if any(s['kind'] == 'package' for s in sc['sources']):
+            ctx.probe('data-package-on-disk-source')
+        if any(sp.get('format') == 'excel' for sp in sc['steps']):
+            ctx.probe('excel-dumper-in-pipeline')
         if len(sc['sources']) > 1:
             ctx.probe('multi-source')
         if sc.get('sample_size'):
